@@ -279,8 +279,13 @@ def make_o(chunk, nchunks):
                         continue  # need well-formed date strings: C03/LIB-dt
                     if opname == "str_slice" and (TU.is_null_typed(sig[2]) or not T.is_const(sig[2])):
                         continue  # a null length is not documented (Polars: to the end, SQL: null)
-                    for variant in (0, 1):
-                        if variant == 1 and len(sig) < 2:
+                    ctxs = [""]
+                    if op.ftype == H.Ftype.WINDOW:
+                        ctxs = ["", "partition_by"]
+                    elif op.ftype == H.Ftype.AGGREGATE:
+                        ctxs = ["", "ungrouped", "window", "window_all", "filter", "window_filter"]
+                    for variant, ctx in itertools.product((0, 1), ctxs):
+                        if variant == 1 and (len(sig) < 2 or ctx):
                             continue
                         res = []
                         for t in tabs:
@@ -289,8 +294,17 @@ def make_o(chunk, nchunks):
                                 break
                             try:
                                 kw = {"arrange": [t.g, t.h.descending()]} if op.ftype == H.Ftype.WINDOW else {}
+                                if ctx in ("partition_by", "window", "window_filter"):
+                                    kw["partition_by"] = [t.g]
+                                if ctx in ("filter", "window_filter"):
+                                    kw["filter"] = t.bb
                                 e = H.ColFn(op, *args, **kw)
-                                tbl = (t >> pdt.group_by(t.g) >> pdt.summarize(r=e) >> pdt.arrange(pdt.C.g)) if op.ftype == H.Ftype.AGGREGATE else (t >> pdt.mutate(r=e) >> pdt.arrange(t.h))
+                                if op.ftype == H.Ftype.AGGREGATE and ctx in ("", "filter"):
+                                    tbl = t >> pdt.group_by(t.g) >> pdt.summarize(r=e) >> pdt.arrange(pdt.C.g)
+                                elif op.ftype == H.Ftype.AGGREGATE and ctx == "ungrouped":
+                                    tbl = t >> pdt.summarize(r=e)
+                                else:
+                                    tbl = t >> pdt.mutate(r=e) >> pdt.arrange(t.h)
                                 res.append(("ok", [norm(v) for v in (tbl >> pdt.export(pdt.Polars()))["r"].to_list()]))
                             except (pdt.errors.NotSupportedError, pdt.errors.SubqueryError):
                                 res.append(("refused",))
@@ -301,7 +315,7 @@ def make_o(chunk, nchunks):
                         if len(res) < 2:
                             continue
                         n += 1
-                        lab = f"{opname}{c12._fmt(sig)} (sample columns variant {variant})"
+                        lab = f"{opname}{c12._fmt(sig)}{' [' + ctx + ']' if ctx else ''} (sample columns variant {variant})"
                         if res[0][0] == "error" or res[1][0] == "error":
                             bad.append(f"{lab}: polars {res[0]}, sqlite {res[1]}")
                         elif res[0][0] == "ok" and res[1][0] == "ok" and res[0][1] != res[1][1]:
@@ -334,7 +348,7 @@ def obligations(tier):  # noqa: F811
                                   bounded=f"one column-hiding step >> every step V of the alphabet >> with / without alias(keep_col_refs=True) >> 3 uses of the hidden column; input `{kind}`"))
     for ch in range(8):
         obs.append(Obligation(f"C01/O/operator_sweep/{ch}", "O", "every operator x accepted signature in a one-verb pipeline: Polars vs SQLite, row by row", make_o(ch, 8), functions=fns[:2] + [H.fn_info(H.polars_backend.compile_col_expr), H.fn_info(H.sql_backend.SqlImpl.compile_col_expr)],
-                              bounded="all operators x signatures over 7 sample types (columns, positional literals, an untyped None; arity <= 3) x 2 column choices on one 3-row table; non-finite results compared as NULL"))
+                              bounded="all operators x signatures over 7 sample types (columns, positional literals, an untyped None; arity <= 3) x 2 column choices (aggregates: grouped / ungrouped / as window with and without partition / with filter=; window functions: with and without partition_by) on one 3-row table; non-finite results compared as NULL"))
     for kind in ("mixed", "empty", "single", "tall"):
         for i, cx in enumerate(ctxs):
             for tl, tail in tails:
